@@ -62,7 +62,7 @@ CHECKS = {
          "Generated histories are fed to a pruned node and an unpruned twin; after PruneBlocks(h) for h in {0,1,mid,PRNG,tip,tip+1,tip+2,tip+5} (repeated) exactly the best-chain bodies below h must be absent and every other stored body present, index/states must equal the pure replay, MinReorgIndex must be the lowest block with all bodies above present, History/Headers must equal the twin's; heavier forks with fork point above/at/below MinReorgIndex (at/above must be adopted with pure states, below may be refused with an error and unchanged view); requests needing pruned bodies must error without panic; the pruned store is reopened from its durable image.",
          "After the pruned node legitimately refused a fork the twin adopted, it is compared with the pure oracle only.", "§3 C19"),
  "C20": ("exploration", "reference-model monitoring over sampled and structurally enumerated inputs",
-         "Held on the sampled 128-bit entropies and on complete sweeps of every word at sampled positions against an independent BIP-39 reference anchored on the published vectors; pure functions, so sampling plus structural enumeration is the right level.",
+         "Held on the sampled 128-bit entropies and on complete sweeps of every word at sampled positions against an independent BIP-39 reference anchored on the published vectors; pure functions, so sampling plus structural enumeration is the right level. The first use in the process comes from 16 goroutines, returned keys are wiped and derived again, and races between coreutils accesses reported by the race detector decide.",
          "Trusts crypto/sha256, blake2b, ed25519 and the published BIP-39 vectors; hook H2 exposes the unexported encoder and word list.", "§3 C20"),
 }
 PENDING_REASON = "monitor not built yet in this commit (planned in DESIGN.md §3); not claimed until its check exists and is silent on the unchanged tree"
